@@ -133,3 +133,13 @@ Theorem C01_spline_routing_refuted_on_a_long_edge :
                                (4, 4, false, None); (5, 2, true, Some 2); (6, 2, true, Some 2)]%nat.
 Proof. exact SplineFinding.spline_corridor_of_a_long_edge_is_ill_formed. Qed.
 Print Assumptions C01_spline_routing_refuted_on_a_long_edge.
+
+(* ---------- with the OTHER ordering option, autog.OrderingNoop (Model/PipelineNoop.v), every positioner but the
+   NetworkSimplex one (as for [layout_x]); and it reports no crossing number ---------- *)
+From Autog Require PipelineNoop NoopTotal NoopPipeline2.
+Theorem C01_layout_returns_noop_ordering : forall (A : Type) (eqA : A -> A -> bool), (forall x y, eqA x y = true <-> x = y) ->
+  forall bk o (fixed : option (Q * Q)) (sizes : option (list (A * (Q * Q)))) (es : list (list A)),
+  es <> [] -> Forall (fun p => length p = 2%nat) es -> BKTotal3.layout_x_options_ok A o es ->
+  exists ids ns oes, PipelineNoop.layout_n A eqA bk o fixed sizes es = Ok (ids, (ns, oes, [])).
+Proof. exact NoopTotal.layout_n_total_strong. Qed.
+Print Assumptions C01_layout_returns_noop_ordering.
